@@ -177,6 +177,7 @@ fn base_case(prop: &str, seed: u64, run: u64, opts: &Options, mode: Mode, files:
         path_form: PathForm::Explicit,
         path_args: vec![],
         list_poison: None,
+        hardlinks: vec![],
         symlinks: vec![],
         bogus_paths: vec![],
         list_via_pipe: false,
@@ -1234,6 +1235,18 @@ persistent: false,
                 case.symlinks.push(f.path.clone());
             }
         }
+        // a second name (hard link) for one of the files: the property speaks of files, not names
+        if rng.chance(1, 8) {
+            if let Some(t) = case.files.iter().find(|f| f.exists && f.readable && f.writable && !case.symlinks.contains(&f.path)).cloned() {
+                let dir = t.path.rsplit_once('/').map(|x| x.0.to_string()).unwrap_or_default();
+                let alias = format!("{dir}/hardlink_of_{}.pas", case.files.len());
+                let mut a = t.clone();
+                a.path = alias.clone();
+                case.hardlinks.push((alias, t.path.clone()));
+                case.files.push(a);
+                stats.probe("c18_file_with_a_second_hard_linked_name");
+            }
+        }
     }
     let all_paths: Vec<String> = case.files.iter().map(|f| f.path.clone()).collect();
     case.path_args = path_args_for(&mut rng, form, &all_paths);
@@ -1252,7 +1265,7 @@ persistent: false,
     }
     *stats.by_mode.entry(format!("path_form:{}", form.name())).or_insert(0) += 1;
     case.workers = workers;
-    case.chunks = gen_partition(&mut rng, if duplicated { case.path_args.len() } else { n });
+    case.chunks = gen_partition(&mut rng, if duplicated { case.path_args.len() } else { case.files.len() });
     case.policy = gen_policy(&mut rng);
     if rng.chance(1, 5) {
         case.knobs.avx2 = false;
